@@ -73,7 +73,11 @@ def parse(grid_str, mode=MODE_ZINC, charset='utf-8', single=True):
         if isinstance(grid_data, dict):
             grid_data = [grid_data]
     else:
-        grid_data = GRID_SEP.split(TRAILING_NL_RE.sub('\n', grid_str))
+        grid_str = TRAILING_NL_RE.sub('\n', grid_str)
+        if grid_str and not grid_str.endswith('\n'):
+            # The last row of a document need not be terminated
+            grid_str += '\n'
+        grid_data = GRID_SEP.split(grid_str)
         # An empty (or blank) document holds no grid at all
         grid_data = [g for g in grid_data if g.strip()]
 
